@@ -6,16 +6,19 @@ side is the harness of spec/Hosts.tla (harness.replay.hosts.HostsHarness: execut
 described by the specification's task records, Cluster.shutdown in three stretches, reconnection attempts as two
 steps); this module adds the request side and the connections:
 
-  StartReq(r, rot, use)   session.execute_async("SELECT r" | "USE ks<n>") with callbacks counting the outcomes; the query
-                          plan is the live hosts in address order rotated by `rot`
-  Answer(c, sid, kind)    the node answers the request it holds on connection c / stream sid:
-                          rows | overloaded (retry policy: next host) | invalid (raised) | setks (RESULT set_keyspace)
+  StartReq(r, rot, use, idem, prep)   session.execute_async("SELECT r" | "USE ks<n>" | bound prepared statement) with
+                          callbacks counting the outcomes; the query plan is the live hosts in address order rotated by
+                          `rot`; idempotent statements get speculative executions (ConstantSpeculativeExecutionPolicy)
+  Answer(c, sid, kind)    the node answers the frame it holds on connection c / stream sid:
+                          rows | overloaded (retry policy: next host) | invalid (raised) | setks (RESULT set_keyspace) |
+                          unprepared (ERROR UNPREPARED) and, for the PREPARE of a re-preparation, same | diff | error
   Drop(c, sid)            the node will never answer it
   FireTimer(r)            the request's client timeout fires
-  Kill(c)                 socket error on the pool connection c of a subject host (then, as the heartbeat does,
-                          pool.return_connection(c) when no request was there to notice)
+  Kill(c)                 socket error on the pool connection c of a subject host, then what the heartbeat does with a
+                          dead connection: pool.return_connection(c)
   Exec / Fire / StatusEvent / SetMode / ShutdownA / ShutdownS / ShutdownE     as in Hosts.tla; Exec also runs
-                          ResponseFuture._retry_task (task record k = "Retry", n = request)
+                          ResponseFuture._retry_task / _reprepare / _execute_after_prepare (task records k = "Retry" /
+                          "Reprepare" / "AfterPrep", n = request)
 
 Pool connections have the id space 0..MAXID (at most MAXID requests in flight), so stream ids are reused at once.
 Connections are numbered in the order their pools were created.  USE on the pool connections themselves (new pool with
@@ -32,8 +35,14 @@ from harness import wire
 
 import cassandra.cluster as ccluster
 from cassandra.cluster import _NOT_SET
+from cassandra.policies import ConstantSpeculativeExecutionPolicy
+from cassandra.query import SimpleStatement
 
 MAXID = 2
+SPECMAX = 1
+QID = b"stmt-1"
+OTHER_QID = b"stmt-other"
+PREP_QUERY = "SELECT p FROM t WHERE k=?"
 HOSTS = (2, 3)
 TIMEOUT = 1.0e6
 CONSTS = {"Hosts": set(HOSTS), "Known0": set(HOSTS), "Sessions": {1}, "Ignored": set(), "FineUp": False}
@@ -52,6 +61,7 @@ class DriverHarness(HostsHarness):
         HostsHarness.__init__(self, dict(CONSTS))
         self.world.on_block = _on_block
         self.sess = self.sessions[1]
+        self.cluster.profile_manager.default.speculative_execution_policy = ConstantSpeculativeExecutionPolicy(0.5, SPECMAX)
         self.rot = 0
         self.lbp.make_query_plan = self._plan
         for n in self.nodes.values():
@@ -62,8 +72,18 @@ class DriverHarness(HostsHarness):
         self.cobj = {}             # number -> (pool, connection)
         self.reqs = {}             # r -> dict(fut, cb, eb, kind, att)
         self.nreqs = nreqs
-        self.frames = []           # (connection object, stream, query) of every request frame seen on pool connections
+        self.frames = []           # (connection object, stream, request, keyspaces) of every request frame on pool connections
         self.deferred = []
+        # one prepared statement, known to the driver only (no node remembers it): prepared through the contact point
+        self.cluster.prepare_on_all_hosts = False
+        self.cluster.reprepare_on_up = False
+        self.preparing = True
+        self.ex.inline = True
+        try:
+            self.stmt = self.sess.prepare(PREP_QUERY)
+        finally:
+            self.preparing = False
+            self.ex.inline = False
         self._see_pools()
 
     # ------------------------------------------------------------------ doubles
@@ -72,8 +92,13 @@ class DriverHarness(HostsHarness):
         k = self.rot % len(live) if live else 0
         return live[k:] + live[:k]
 
+    def _prepared_body(self, qid):
+        return wire.body_prepared(qid, [("k", wire.T_INT)], [0], [("p", wire.T_INT)], 4)
+
     def _auto(self, node, p):
         q = p.req.get("query", "")
+        if p.req.get("op") == "PREPARE" and getattr(self, "preparing", False):     # Session.prepare() blocks on it
+            return node.respond(p, wire.RESULT, self._prepared_body(QID))
         if p.req.get("op") == "QUERY" and q.startswith('USE "'):          # Connection.set_keyspace_*: answered at once
             if getattr(p.conn, "_drv_in_feed", 0):
                 # sent from inside the connection's own read handler (keyspace fan-out run by the USE answer): a reactor
@@ -102,8 +127,21 @@ class DriverHarness(HostsHarness):
         c.feed = guarded
 
     def _tap(self, node, conn, req, frame):
-        if req.get("op") == "QUERY" and (req["query"].startswith("SELECT r") or req["query"].startswith("USE ks")):
-            self.frames.append((conn, frame.stream, req["query"], conn.keyspace, self.sess.keyspace))
+        """Tag every frame of a request with the request (r) and its kind (X: the request, P: PREPARE of a re-prepare)."""
+        op, r, f = req.get("op"), 0, ""
+        if op == "QUERY" and (req["query"].startswith("SELECT r") or req["query"].startswith("USE ks")):
+            r, f = self._req_of_query(req["query"]), "X"
+        elif op == "EXECUTE":
+            try:
+                r, f = wire.Reader(req["values"][0]).int(), "X"
+            except Exception:           # noqa: BLE001
+                r, f = -1, "X"
+        elif op == "PREPARE" and not getattr(self, "preparing", False):
+            r, f = self._req_of_cb(conn._requests.get(frame.stream, (None,))[0])[0], "P"
+        if f:
+            req["_r"], req["_f"] = r, f
+            if f == "X":
+                self.frames.append((conn, frame.stream, r, conn.keyspace, self.sess.keyspace))
         return False
 
     def _see_pools(self):
@@ -130,11 +168,19 @@ class DriverHarness(HostsHarness):
     def describe(self, fn, args=(), kwargs=None, future=None):
         name = getattr(fn, "__name__", None)
         owner = getattr(fn, "__self__", None)
-        if name == "_retry_task" and isinstance(owner, ccluster.ResponseFuture):
-            for r, d in self.reqs.items():
+        if isinstance(owner, ccluster.ResponseFuture) and name in ("_retry_task", "_reprepare", "_execute_after_prepare"):
+            r = -1
+            for k, d in self.reqs.items():
                 if d["fut"] is owner:
+                    r = k
+            try:
+                if name == "_retry_task":
                     return T("Retry", n=r)
-            return T("Retry", n=-1)
+                if name == "_reprepare":
+                    return T("Reprepare", h=num_of(args[1].address), n=r)
+                return T("AfterPrep", s=self.conn_number(args[1]), h=num_of(args[0].address), kind=self._resp_kind(args[3]), n=r)
+            except Exception as ex:           # noqa: BLE001 - a mutated driver may queue it in another shape
+                return T("?%s:%s" % (name, type(ex).__name__), n=r)
         return HostsHarness.describe(self, fn, args, kwargs, future)
 
     # ------------------------------------------------------------------ operations
@@ -144,16 +190,31 @@ class DriverHarness(HostsHarness):
         self._see_pools()
         return self.project()
 
+    @staticmethod
+    def _resp_kind(resp):
+        from cassandra.protocol import ResultMessage, ErrorMessage
+        from cassandra.connection import ConnectionException
+        if isinstance(resp, ResultMessage):
+            return "same" if getattr(resp, "query_id", None) == QID else "diff"
+        if isinstance(resp, ErrorMessage):
+            return "error"
+        if isinstance(resp, ConnectionException):
+            return "connerr"
+        return "other:" + type(resp).__name__
+
     def act_StartReq(self, act):
         r = act["r"]
         if r in self.reqs:
             raise HarnessError("request %s already started" % r)
         self.rot = act.get("rot", 0)
         use = act.get("x") or ""
-        d = self.reqs[r] = {"fut": None, "cb": 0, "eb": 0, "use": use, "exc": None}
+        d = self.reqs[r] = {"fut": None, "cb": 0, "eb": 0, "use": use, "exc": None, "prep": bool(act.get("prep"))}
         q = self._query_of(r, d)
         try:
-            fut = self.sess.execute_async(q, timeout=TIMEOUT)
+            if d["prep"]:
+                fut = self.sess.execute_async(self.stmt.bind((r,)), timeout=TIMEOUT)
+            else:
+                fut = self.sess.execute_async(SimpleStatement(q, is_idempotent=bool(act.get("idem"))), timeout=TIMEOUT)
         except Exception as ex:           # noqa: BLE001 - refused synchronously
             d["exc"] = type(ex).__name__
             return
@@ -180,7 +241,15 @@ class DriverHarness(HostsHarness):
         node, p = self._held(act["c"], act["sid"])
         kind = act["x"]
         if kind == "rows":
-            node.respond_rows(p, [("a", wire.T_INT)], [[wire.w_int(7)]])
+            node.respond_rows(p, [("p", wire.T_INT)], [[wire.w_int(7)]])
+        elif kind == "unprepared":
+            node.respond_error(p, wire.ERR_UNPREPARED, "unprepared", wire.tail_unprepared(QID))
+        elif kind == "same":
+            node.respond(p, wire.RESULT, self._prepared_body(QID))
+        elif kind == "diff":
+            node.respond(p, wire.RESULT, self._prepared_body(OTHER_QID))
+        elif kind == "error":
+            node.respond_error(p, wire.ERR_INVALID, "unconfigured table t")
         elif kind == "overloaded":
             node.respond_error(p, wire.ERR_OVERLOADED, "overloaded")
         elif kind == "invalid":
@@ -205,10 +274,10 @@ class DriverHarness(HostsHarness):
         pool, conn = self.cobj.get(act["c"], (None, None))
         if conn is None or conn.is_closed or conn.is_defunct:
             raise HarnessError("connection %s is not open" % act["c"])
-        noticed = bool(conn._requests)
         conn.socket_error()
-        if not noticed:
-            pool.return_connection(conn)          # ConnectionHeartbeat.run: owner.return_connection(connection)
+        # then the heartbeat finds it: ConnectionHeartbeat.run does owner.return_connection(connection) (the requests that
+        # were registered on it have done the same already, except a PREPARE, whose task does it later)
+        pool.return_connection(conn)
 
     # ------------------------------------------------------------------ projection
     def project(self):
@@ -221,8 +290,8 @@ class DriverHarness(HostsHarness):
             node = self.nodes[num_of(c.endpoint.address)]
             reg = []
             for sid, (cb, _, _) in sorted(c._requests.items()):
-                reg.append([sid, self._req_of_cb(cb)])
-            owed = sorted([q.frame.stream, self._req_of_query(q.req.get("query", ""))] for q in node.pending if q.conn is c)
+                reg.append([sid] + list(self._req_of_cb(cb)))
+            owed = sorted([q.frame.stream, q.req.get("_r", 0), q.req.get("_f", "?")] for q in node.pending if q.conn is c)
             installed = self.sess._pools.get(pool.host) is pool
             conns.append({"h": num_of(c.endpoint.address), "open": is_open, "ks": c.keyspace or "",
                           "infl": c.in_flight if is_open else 0, "reg": reg if is_open else [],
@@ -233,11 +302,13 @@ class DriverHarness(HostsHarness):
         for r in range(1, self.nreqs + 1):
             d = self.reqs.get(r)
             if d is None:
-                reqs.append({"st": "new", "out": "none", "n": 0, "att": [], "timer": False, "plan": []})
+                reqs.append({"st": "new", "out": "none", "n": 0, "att": [], "timer": "off", "plan": [], "errs": [],
+                             "lc": 0, "lid": -1})
                 continue
             fut = d["fut"]
             if fut is None:
-                reqs.append({"st": "done", "out": d["exc"], "n": 1, "att": [], "timer": False, "plan": []})
+                reqs.append({"st": "done", "out": d["exc"], "n": 1, "att": [], "timer": "off", "plan": [], "errs": [],
+                             "lc": 0, "lid": -1})
                 continue
             exc, res = fut._final_exception, fut._final_result
             if exc is not None and res is not _NOT_SET:
@@ -249,16 +320,22 @@ class DriverHarness(HostsHarness):
             else:
                 out = "none"
             att = [[num_of(c.endpoint.address), self.conn_number(c), sid, ks or "", sk or ""]
-                   for c, sid, q, ks, sk in self.frames if q == self._query_of(r, d)]
+                   for c, sid, q, ks, sk in self.frames if q == r]
             t = fut._timer
-            armed = bool(t is not None and not t.canceled and not getattr(t, "_fired", False))
+            armed = "off"
+            if t is not None and not t.canceled and not getattr(t, "_fired", False):
+                name = getattr(t.callback, "__name__", None) or getattr(getattr(t.callback, "func", None), "__name__", "?")
+                armed = {"_on_speculative_execute": "spec", "_on_timeout": "to"}.get(name, "?" + str(name))
+            errs = sorted(num_of(h.address) if hasattr(h, "address") else -1 for h in fut._errors)
             try:
                 import copy as _copy
                 plan = [num_of(h.address) for h in _copy.copy(fut.query_plan)]
             except TypeError:
                 plan = [-1]
             reqs.append({"st": "done" if out != "none" else "open", "out": out, "n": d["cb"] + d["eb"], "att": att,
-                         "timer": armed, "plan": plan})
+                         "timer": armed, "plan": plan, "errs": errs,
+                         "lc": self.conn_number(fut._connection) if fut._connection is not None else 0,
+                         "lid": fut._req_id if fut._req_id is not None else -1})
         p["conns"] = conns
         p["reqs"] = reqs
         p["sks"] = self.sess.keyspace or ""
@@ -274,16 +351,21 @@ class DriverHarness(HostsHarness):
         return 0
 
     def _req_of_cb(self, cb):
-        fut = getattr(getattr(cb, "func", None), "__self__", None)
+        """(request, kind) of a handler registered on a connection: partial(fut._set_result, ..) is the request's own (X),
+        partial(session.submit, fut._execute_after_prepare, ..) the PREPARE of its re-preparation (P)."""
+        func = getattr(cb, "func", None)
+        fut, f = getattr(func, "__self__", None), "X"
+        if getattr(func, "__name__", "") == "submit" and getattr(cb, "args", None):
+            fut, f = getattr(cb.args[0], "__self__", None), "P"
         for r, d in self.reqs.items():
             if d["fut"] is fut and fut is not None:
-                return r
-        return 0
+                return r, f
+        return 0, f
 
 
 # ---------------------------------------------------------------------- recording (code -> spec)
-ENV = {"fail", "status", "mode"}
 KEYSPACES = ("ks", "ks2")
+MAX_EVENTS = 4
 
 
 def A(name, **kw):
@@ -325,13 +407,24 @@ def enabled_ops(h, p, state, max_events):
                 use = ""
                 if phase == 0 and not use_pending and state["rng"].random() < 0.2:
                     use = state["rng"].choice(KEYSPACES)
-                ops.append(("req", A("StartReq", r=r, rot=rot, x=use)))
+                prep = (not use) and state["rng"].random() < 0.3
+                ops.append(("req", A("StartReq", r=r, rot=rot, x=use, prep=prep,
+                                     idem=(not use and not prep and state["rng"].random() < 0.6))))
             break
-    full = any(c["open"] and c["inst"] and c["infl"] >= MAXID for c in p["conns"])
     for n, c in enumerate(p["conns"], 1):
-        for sid, r in c["owed"]:
+        for sid, r, f in c["owed"]:
             d = h.reqs.get(r)
+            if f == "P":
+                for kind in ("same", "same", "same", "diff", "error"):
+                    ops.append(("node", A("Answer", c=n, sid=sid, x=kind)))
+                ops.append(("node", A("Drop", c=n, sid=sid)))
+                continue
+            if d is not None and d["prep"]:
+                ops += [("node", A("Answer", c=n, sid=sid, x="unprepared"))] * 3
             if d is not None and d["use"]:
+                # the fan-out spins until a connection has a free slot: only when every pool connection can take a request
+                full = any(k["open"] and k["inst"] and k["infl"] - (1 if (m == n and [sid, r, f] in k["reg"]) else 0) >= MAXID
+                           for m, k in enumerate(p["conns"], 1))
                 if not full:
                     ops.append(("node", A("Answer", c=n, sid=sid, x="setks")))
                 continue
@@ -339,7 +432,7 @@ def enabled_ops(h, p, state, max_events):
                 ops.append(("node", A("Answer", c=n, sid=sid, x=kind)))
             ops.append(("node", A("Drop", c=n, sid=sid)))
     for r, q in enumerate(p["reqs"], 1):
-        if q["timer"] and q["st"] == "open":
+        if q["timer"] != "off" and q["st"] == "open":
             ops.append(("timer", A("FireTimer", r=r)))
     return ops
 
@@ -347,7 +440,7 @@ def enabled_ops(h, p, state, max_events):
 WEIGHTS = {"task": 5, "env": 2, "shut": 0.25, "req": 4, "node": 5, "timer": 0.7}
 
 
-def record(rng, nreqs=4, max_steps=60, max_events=4):
+def record(rng, nreqs=4, max_steps=60, max_events=MAX_EVENTS):
     """Drive the real objects with random enabled operations; returns (events, final projection, harness error)."""
     h = DriverHarness(nreqs)
     state = {"budget": 0, "mode": {x: "ok" for x in h.hosts}, "rng": rng}
